@@ -194,7 +194,7 @@ def build_pipeline(case, log=None, **kw):
 
 
 # ------------------------------------------------------------------ oracle
-def oracle(case, inputs=None):
+def oracle(case, inputs=None, none_terms=()):
     """Returns (env, calls): env name -> np object array | scalar term; calls: function name ->
     list of (ext_index_tuple, term) expected probe calls."""
     sizes = case["sizes"]
@@ -239,6 +239,9 @@ def oracle(case, inputs=None):
                     kw[p] = env[p][tuple(slice(None) if a is None else ids[a] for a in m)]
             t = _term(f, kw)
             calls[f["name"]].append((tuple(ext_idx), t))
+            if t in none_terms and nout == 1 and not int_axes:
+                outs[0][tuple(ids[a] for a in out_axes)] = None  # this invocation returns None (see probes fault 'none')
+                continue
             for o in range(nout):
                 base = t if nout == 1 else f"{t}#{o}"
                 for int_idx in itertools.product(*[range(sizes[a]) for a in int_axes]):
